@@ -257,6 +257,8 @@ FAMILY = [
     ('p', (V('X'),), ('true',)),
     ('p', (V('X'), ('l',)), ('ifthen', ('call', 'q', V('X'), ('f', 'h', V('V'), ('l', V('V2')))), ('call', 'r', ('lp', V('V'), A('nil'))))),
     ('p', (('_', 0), V('Y')), ('or', ('call', 'q', V('Y'), V('N')), ('and', ('not', ('call', 'r', V('M'))), ('fail',)))),
+    ('p', (V('X'), V('X')), ('and', ('cut',), ('fail',))),            # 10: a neck cut that is only reached when the arguments unify
+    ('p', (V('X'), A('a')), ('and', ('cut',), ('call', 'q', V('X')))),   # 11
 ]
 
 
@@ -434,6 +436,7 @@ PROGRAMS = [
     [(('p', 2), [1, 0, 1])],
     [(('p', 0), [5, 5]), (('p', 2), [8, 9, 8])],
     [(('p', 6), [4, 4]), (('p', 3), [2])],
+    [(('p', 2), [10, 0, 11, 1])],
 ]
 
 
@@ -483,3 +486,56 @@ def rule_program_structure(cm, rep, rid):
         else:
             rep.ok(rid, key, '%d function(s), bodies are the per-clause code in clause order' % len(funcs), f.loc())
     rep.minimum('sample programs evaluated', n, 3)
+
+
+LATE_FAMILY = [
+    ('p', (V('X'),), ('and', ('call', 'q', V('X')), ('call', 'p', V('X')))),
+    ('p', (V('X'),), ('or', ('call', 'p', ('f', 'f', V('X'))), ('ifthen', ('call', 'q', V('X')), ('call', 'r')))),
+    ('q', (A('a'),), ('not', ('call', 'p', A('a')))),
+]
+
+
+def _calls(lab, code, acc):
+    if isinstance(code, ListV):
+        for s in code.items:
+            _calls(lab, s, acc)
+    elif isinstance(code, New):
+        a = lab.ctor_args(code)
+        if code.cls.name == 'YPCodeForeach':
+            acc.append(a[0])
+        for x in a:
+            if isinstance(x, (ListV, New)) and not (code.cls.name == 'YPCodeForeach' and x is a[0]):
+                _calls(lab, x, acc)
+    return acc
+
+
+def rule_calls_late_bound(cm, rep, rid):
+    rep.rule(rid, 'in the code compile_program describes for sample programs (including recursive and mutually recursive '
+                  'predicates of the same program), every goal is a loop over query(<name string>, [arguments]) and every head '
+                  'unification a loop over unify(...): the callee is looked up by name when the call is made, never bound to '
+                  'a function of the program being compiled')
+    lab = ClauseLab(cm)
+    f = cm.comp.methods['compile_program']
+    prog = [(('p', 1), [LATE_FAMILY[0], LATE_FAMILY[1]]), (('q', 1), [LATE_FAMILY[2]])]
+    funcs = lab.program(prog)
+    if isinstance(funcs, str):
+        rep.violation(rid, 'program:p/1 q/1', funcs, f.loc())
+        return
+    n = 0
+    for fname, params, body in funcs:
+        for call in _calls(lab, ListV(body), []):
+            n += 1
+            a = lab.ctor_args(call) if lab.kind(call) == 'YPCodeCall' else None
+            fn = lab.text(a[0]) if a else None
+            args = a[1].items if a and isinstance(a[1], ListV) else []
+            key = '%s:%s(...)' % (fname, fn)
+            if fn == 'unify' and len(args) == 2:
+                rep.ok(rid, key, 'head unification', f.loc())
+            elif fn == 'query' and len(args) == 2 and lab.kind(args[0]) == 'YPCodeExpr' and isinstance(lab.ctor_args(args[0])[0], Const) and \
+                    isinstance(lab.ctor_args(args[0])[0].v, str) and lab.kind(args[1]) == 'YPCodeList':
+                rep.ok(rid, '%s:query(%r, ...)' % (fname, lab.ctor_args(args[0])[0].v), 'resolved by name at call time', f.loc())
+            else:
+                rep.violation(rid, key, 'a goal of the clause is compiled to a loop over %s(%s) instead of query(name, arguments): the call is '
+                              'bound when the script is compiled or loaded, not when it is made - later loads, registrations and '
+                              'dynamic facts for that predicate are not seen' % (fn, ', '.join(lab.kind(x) or repr(x) for x in args)), f.loc())
+    rep.minimum('goal and unification loops in the sample program', n, 6)
